@@ -32,9 +32,9 @@ DESIGN_REF = "5/C39, 4.4"
 TECHNIQUE = "simulated lmod; child environment observed with env -0 against exec of lmod's program"
 RULE = (
     "cases = caller environment (0-4 generated variables plus the real process environment) x 1-3 "
-    "modules each with 0-4 effects (set, prepend-path, append-path, unset) on module-only keys, "
-    "keys shared with the caller and PATH, values from a hostile alphabet (space, ':', '=', single "
-    "and double quotes, backslash, '$', '#', unicode, empty) x lmod output style (Lmod's "
+    "modules (the first with 1-4, the others with 0-4 effects: set, prepend-path, append-path, "
+    "unset) on module-only keys, keys shared with the caller and PATH, values from a hostile "
+    "alphabet (space, ':', '=', single and double quotes, backslash, '$', '#', unicode, empty) x lmod output style (Lmod's "
     "double-quoted form or python repr) x a generated shell definition for the argv comparison. "
     "Non-trivial = at least one module effect and at least one caller variable; distinct = full case."
 )
@@ -48,6 +48,7 @@ ASSUMPTIONS = [
     "comparison a really executed /usr/bin/env -0",
 ]
 SHARDS = {"quick": 16, "thorough": 16}
+WALL = {"quick": 300, "thorough": 1500}    # every case spawns 3 processes: slow on a loaded machine
 
 CALLER_KEYS = ["VERIF_KEEP1", "VERIF_KEEP2", "VERIF_SHARED1", "VERIF_SHARED2", "VERIF_PATH"]
 MODULE_KEYS = ["VERIF_MOD1", "VERIF_MOD2", "TOOL_HOME", "VERIF_SHARED1", "VERIF_SHARED2",
@@ -65,13 +66,17 @@ def _note(label):
 
 
 def _programs(case, lmod_env):
-    """module name -> program text, plus the list of keys touched / unset at the end."""
+    """[(module name, program text)]; each module sees the effects of the previous ones."""
     env = dict(lmod_env)
     progs = []
     for m in case["modules"]:
         prog, env = R.emit_module(m["effects"], env, case["style"])
         progs.append((m["name"], prog))
     return progs
+
+
+def _assignments(program, key):
+    return [ln for ln in program.splitlines() if f"[{R.lua_quote(key)}]" in ln or f"[{key!r}]" in ln]
 
 
 def check_case(case):
@@ -135,8 +140,8 @@ def _check(case, base):
         # ---------------- (B) environment of a really executed child
         Env = shell.define("/usr/bin/env", name="EnvDump")
         try:
-            out = Env(append_args=["-0"])(cache_root=base / "cache_b", environment=lmod.Environment(modules=names),
-                        worker="debug")
+            out = Env(append_args=["-0"])(cache_root=base / "cache_b", worker="debug",
+                                          environment=lmod.Environment(modules=names))
         except Exception as ex:  # noqa
             rec(exception_signature(ex, "lmod-run-raised"), short(ex), "env -0 is executed")
             return list(recs.values())
@@ -159,15 +164,20 @@ def _check(case, base):
     lost = {k: v for k, v in untouched.items() if observed.get(k) != v}
     if lost:
         if not any(k in observed for k in untouched):
+            eg = [k for k in sorted(lost) if k in case["caller"] or k in ("HOME", "MODULESHOME")]
             rec("caller-environment-not-passed-to-the-command", sorted(observed),
-                f"{len(untouched)} caller variables passed through, e.g. {sorted(lost)[:4]}")
+                f"the caller's variables passed through, e.g. {eg[:5]}")
         else:
+            # values are shown only for the generated variables (the real environment of this
+            # process may hold secrets and must not end up in replay files)
+            shown = [k for k in sorted(lost) if k in case["caller"]][:5]
             rec("caller-variable-lost-or-changed",
-                {k: observed.get(k) for k in sorted(lost)[:5]}, {k: lost[k] for k in sorted(lost)[:5]})
+                dict(names=sorted(lost)[:8], values={k: observed.get(k) for k in shown}),
+                {k: lost[k] for k in shown})
     # variables nobody set
     stray = sorted(k for k in observed if k not in expected_env and k not in unset_last)
     if stray:
-        rec("stray-variable-in-command-environment", {k: observed[k] for k in stray[:5]}, "absent")
+        rec("stray-variable-in-command-environment", stray[:8], "absent")
     # variables the modules set
     model = R.regex_model(program)
     for k in touched:
@@ -178,23 +188,25 @@ def _check(case, base):
             continue
         if got is not None and got == model.get(k):
             rec("module-value-not-decoded-as-string-literal", {k: got}, {k: want},
-                detail=f"program: {program!r}")
+                detail=f"lmod printed: {_assignments(program, k)!r}")
         else:
-            rec("module-variable-wrong", {k: got}, {k: want}, detail=f"program: {program!r}")
+            rec("module-variable-wrong", {k: got}, {k: want},
+                detail=f"lmod printed: {_assignments(program, k)!r}")
     return list(recs.values())
 
 
 # ------------------------------------------------------------------ generation
 @st.composite
 def cases(draw):
-    caller_keys = draw(st.lists(st.sampled_from(CALLER_KEYS), max_size=4, unique=True))
+    caller_keys = draw(st.lists(st.sampled_from(CALLER_KEYS), min_size=draw(st.sampled_from([0, 1, 1, 1])),
+                                max_size=4, unique=True))
     caller = {k: draw(st.sampled_from([v for v in VALUES if v])) for k in caller_keys}
     names = draw(st.lists(st.sampled_from(MODULE_NAMES), min_size=1, max_size=3, unique=True))
     modules = []
-    for n in names:
+    for i, n in enumerate(names):
         effects = []
-        for _ in range(draw(st.integers(0, 4))):
-            op = draw(st.sampled_from(["set", "set", "set", "prepend", "prepend", "append", "unset"]))
+        for _ in range(draw(st.integers(1 if i == 0 else 0, 4))):
+            op = draw(st.sampled_from(["set"] * 4 + ["prepend"] * 3 + ["append", "unset"]))
             key = draw(st.sampled_from(MODULE_KEYS))
             if op == "unset":
                 if key in ("PATH", "LD_LIBRARY_PATH"):
